@@ -25,7 +25,8 @@ Definition content := bytes.
 Inductive outcome :=
 | AcceptUnchanged
 | AcceptModified (c : content)
-| AcceptNilContent            (* 200, reject=false, unchange=false, "content": null *)
+| AcceptNilContent            (* a Go-value plugin returning (res{Unchange:false}, nil, nil); the HTTP
+                                 plugin can no longer produce it: see http_handle *)
 | Reject (reason : bytes)
 | TransportError | Non200 | Malformed.
 
@@ -65,12 +66,18 @@ Definition http_handle (zero : content) (tr : transport) (status : Z) (b : body)
            | BReadFail => HErr ETransport
            | BGarbage => HErr EMalformed
            | BParsed rj rs un cf =>
-               HRes {| h_reject := rj; h_reason := rs; h_unchange := un;
-                       h_content := match cf with
-                                    | CFAbsent => Some zero
-                                    | CFNull => None
-                                    | CFVal c => Some c
-                                    end |}
+               let content := match cf with
+                              | CFAbsent => Some zero
+                              | CFNull => None
+                              | CFVal c => Some c
+                              end in
+               (* Handle: `if res.Content == nil && !res.Reject && !res.Unchange { return nil, nil, error }`
+                  -- a reply that says "changed" and carries `"content": null` is refused *)
+               match content with
+               | None => if negb rj && negb un then HErr EMalformed
+                         else HRes {| h_reject := rj; h_reason := rs; h_unchange := un; h_content := None |}
+               | Some c => HRes {| h_reject := rj; h_reason := rs; h_unchange := un; h_content := Some c |}
+               end
            end
   end.
 
@@ -413,6 +420,7 @@ Record nsite := {
   n_file : string; n_func : string;
   n_range : string;          (* expression ranged over by the enclosing for, "" if none *)
   n_ifs : Z;                 (* conditionals enclosing the call inside that function / loop body *)
+  n_jumps : Z;               (* break / continue / return / goto statements in the body of that loop (closures excluded) *)
   n_name : string            (* expression used as ProxyName of the notification *)
 }.
 
